@@ -340,6 +340,15 @@ def gen_history(rng, nops):
             if not cs or not vs:
                 continue
             hc = rng.choice(cs)
+            roots = [h_ for h_ in vs if H[h_][0] is H[hc][0] and h_ != hc] if H[hc][1] else []   # (the root handle must itself own a reference)
+            if roots and rng.random() < 0.5:
+                # the whole document is "replaced" by itself: json_pointer_set(&root, "", root) with a reference of the caller's own -- the old reference is released,
+                # the caller's is taken over, the node lives on
+                hv = rng.choice(roots)
+                H[hv][0].rc -= 1
+                H[hv][1] = False
+                emit("PSET %d x %d" % (hc, hv), ret=0, dels=[], tag="pointer_set_of_the_root_onto_itself")
+                continue
             hv = rng.choice(vs)
             v = H[hv][0]
             loc = pick_location(rng, H[hc][0])
